@@ -381,10 +381,24 @@ pub fn run(tier: &str) -> i32 {
     if rejected_cases == 0 {
         rep.machinery("vacuity guard: BufferFull was never produced");
     }
+    wide_space(&mut rep);
     rep.finish()
 }
 
 pub fn replay(v: &serde_json::Value) -> i32 {
+    if v["kind"] == "wide-case" {
+        let c: WideCase = serde_json::from_value(v["case"].clone()).expect("case");
+        return match run_wide_blocking(&c) {
+            Ok(n) => {
+                println!("case {c:?}: {n} chunk(s), every accepted row stored as written; no violation");
+                0
+            }
+            Err((sig, msg)) => {
+                println!("violation [{sig}]: {msg}");
+                1
+            }
+        };
+    }
     if v["kind"] == "input" {
         let c: InputCase = serde_json::from_value(v["case"].clone()).expect("case");
         let e = crate::engine::env::EnvState::new();
@@ -410,4 +424,181 @@ pub fn replay(v: &serde_json::Value) -> i32 {
 #[allow(dead_code)]
 fn _unused(_: &dyn ObjectStore, _: &RecordBatch) -> Vec<i64> {
     batch_ids(&super::c01::one_row_batch(1, 0))
+}
+
+// ---------------------------------------------------------------------------------------------------------------------
+// wide schemas: the columns the ingest protocols really produce (three typed value columns, several labels, a
+// dictionary-encoded label, an all-null label), written through the real Ingester; the stored objects are compared with
+// the Arrow batches that were accepted, value by value, without going through the repository's Parquet writer on the
+// reference side.
+// ---------------------------------------------------------------------------------------------------------------------
+
+#[derive(Debug, Clone, serde::Serialize, serde::Deserialize)]
+pub struct WideCase {
+    pub ts_kind: u8,
+    pub flush_row_count: usize,
+    /// label sets of the successive writes (index into `wide_label_sets()`); a change forces a schema-change flush
+    pub writes: Vec<usize>,
+}
+
+fn wide_label_sets() -> Vec<Vec<&'static str>> {
+    vec![vec!["host", "env"], vec!["region"], vec![], vec!["env", "host"]]
+}
+
+fn wide_batch(c: &WideCase, w: usize) -> RecordBatch {
+    use arrow_array::{DictionaryArray, UInt64Array};
+    let now = crate::engine::env::EPOCH_NS;
+    let n = 4usize;
+    let ts_vals: Vec<i64> = (0..n as i64).map(|k| now - 1000 + (w as i64) * 10 + k).collect();
+    let ts_field = match c.ts_kind {
+        0 => Field::new("timestamp", DataType::Int64, false),
+        _ => Field::new("timestamp", DataType::Timestamp(TimeUnit::Nanosecond, Some("UTC".into())), false),
+    };
+    let ts: Arc<dyn Array> = match c.ts_kind {
+        0 => Arc::new(Int64Array::from(ts_vals)),
+        _ => Arc::new(TimestampNanosecondArray::from(ts_vals).with_timezone("UTC")),
+    };
+    let mut fields = vec![
+        ts_field,
+        Field::new("metric_name", DataType::Utf8, false),
+        Field::new("value_f64", DataType::Float64, true),
+        Field::new("value_i64", DataType::Int64, true),
+        Field::new("value_u64", DataType::UInt64, true),
+        Field::new("id", DataType::Int64, false),
+    ];
+    let mut cols: Vec<Arc<dyn Array>> = vec![
+        ts,
+        Arc::new(StringArray::from(vec!["cpu", "mem", "cpu", "disk.io"])),
+        Arc::new(Float64Array::from(vec![Some(-0.0), None, Some(f64::NAN), Some(1e308)])),
+        Arc::new(Int64Array::from(vec![None, Some(i64::MIN), Some(i64::MAX), None])),
+        Arc::new(UInt64Array::from(vec![Some(u64::MAX), None, None, Some((1u64 << 53) + 1)])),
+        Arc::new(Int64Array::from((0..n as i64).map(|k| (w as i64) * 100 + k).collect::<Vec<_>>())),
+    ];
+    for l in &wide_label_sets()[c.writes[w]] {
+        if *l == "env" {
+            // dictionary-encoded, with a null and a repeated value
+            let d: DictionaryArray<arrow_array::types::Int32Type> = vec![Some("prod"), None, Some("prod"), Some("Prod ")].into_iter().collect();
+            fields.push(Field::new("env", d.data_type().clone(), true));
+            cols.push(Arc::new(d));
+        } else {
+            fields.push(Field::new(*l, DataType::Utf8, true));
+            cols.push(Arc::new(StringArray::from(vec![Some(format!("{l}-a")), Some(String::new()), None, Some(format!("{l}-\u{e9}\"',"))])));
+        }
+    }
+    // a label no row of this batch carries
+    fields.push(Field::new("zone", DataType::Utf8, true));
+    cols.push(Arc::new(StringArray::from(vec![None::<&str>; n])));
+    RecordBatch::try_new(Arc::new(Schema::new(fields)), cols).expect("wide batch")
+}
+
+async fn run_wide_case(c: &WideCase) -> Result<usize, (String, String)> {
+    let mem = new_mem();
+    let local = Arc::new(LocalMetadataClient::new());
+    let cfg = IngesterConfig {
+        flush_interval: Duration::from_secs(3600),
+        flush_row_count: c.flush_row_count,
+        flush_size_bytes: usize::MAX / 4,
+        max_buffer_size_bytes: usize::MAX / 4,
+        wal: WalConfig { enabled: false, ..WalConfig::default() },
+        ..IngesterConfig::default()
+    };
+    let ing = Arc::new(Ingester::new(cfg, mem.clone(), local.clone() as Arc<dyn MetadataClient>, storage_config(), MetricSchema::default_metrics()));
+    let mut want: Vec<String> = Vec::new();
+    for w in 0..c.writes.len() {
+        let b = wide_batch(c, w);
+        match futures::FutureExt::catch_unwind(std::panic::AssertUnwindSafe(ing.write(b.clone()))).await {
+            Ok(Ok(())) => want.extend(whole_rows_of_batch(&b).map_err(|e| ("C06:machinery:render".to_string(), e))?),
+            Ok(Err(e)) => return Err(("C06:wide:write-rejected-fault-free".into(), format!("write {w} rejected: {e}"))),
+            Err(_) => return Err(("C06:wide:write-panics".into(), format!("write {w} panicked"))),
+        }
+    }
+    ing.shutdown_token().cancel();
+    ing.run_flush_timer().await;
+    let mut got: Vec<String> = Vec::new();
+    let listed = local.list_chunks().await.unwrap_or_default();
+    for e in &listed {
+        let data = crate::engine::store::raw_get(&mem, &e.chunk_path).await.ok_or(("C06:wide:listed-chunk-missing".to_string(), e.chunk_path.clone()))?;
+        let rows = whole_rows(data).map_err(|m| ("C06:wide:chunk-undecodable".to_string(), m))?;
+        if e.row_count != rows.len() as u64 {
+            return Err(("C06:row_count-wrong".into(), format!("catalog {} vs {} rows in {}", e.row_count, rows.len(), e.chunk_path)));
+        }
+        got.extend(rows);
+    }
+    want.sort();
+    got.sort();
+    if want != got {
+        let lost: Vec<&String> = want.iter().filter(|r| !got.contains(r)).collect();
+        let new: Vec<&String> = got.iter().filter(|r| !want.contains(r)).collect();
+        let kind = if got.len() != want.len() { "row-count-changed" } else { "row-content-changed" };
+        return Err((format!("C06:wide:{kind}"), format!("accepted rows not stored as written {lost:?}; stored rows that were not written {new:?}")));
+    }
+    Ok(listed.len())
+}
+
+fn wide_cases() -> Vec<WideCase> {
+    let n = wide_label_sets().len();
+    let mut v = Vec::new();
+    for ts_kind in [0u8, 2] {
+        for frc in [1usize, 5, usize::MAX / 4] {
+            for a in 0..n {
+                v.push(WideCase { ts_kind, flush_row_count: frc, writes: vec![a] });
+                for b in 0..n {
+                    v.push(WideCase { ts_kind, flush_row_count: frc, writes: vec![a, b] });
+                    v.push(WideCase { ts_kind, flush_row_count: frc, writes: vec![a, b, a] });
+                }
+            }
+        }
+    }
+    v
+}
+
+fn run_wide_blocking(c: &WideCase) -> Result<usize, (String, String)> {
+    let c = c.clone();
+    std::thread::spawn(move || {
+        let e = crate::engine::env::EnvState::new();
+        crate::engine::env::install(&e);
+        let rt = tokio::runtime::Builder::new_current_thread().enable_all().start_paused(true).build().unwrap();
+        let r = rt.block_on(run_wide_case(&c));
+        drop(rt);
+        crate::engine::env::uninstall();
+        r
+    })
+    .join()
+    .unwrap_or_else(|_| Err(("C06:machinery:case-panicked".into(), "the case panicked".into())))
+}
+
+fn wide_space(rep: &mut Report) {
+    let cs = wide_cases();
+    let t0 = std::time::Instant::now();
+    let (mut chunks, mut multi) = (0u64, 0u64);
+    let mut viol: BTreeMap<String, (String, WideCase, u64)> = BTreeMap::new();
+    for c in &cs {
+        match run_wide_blocking(c) {
+            Ok(n) => {
+                chunks += n as u64;
+                if n > 1 {
+                    multi += 1;
+                }
+            }
+            Err((sig, msg)) => {
+                let e = viol.entry(sig).or_insert((msg, c.clone(), 0));
+                e.2 += 1;
+            }
+        }
+    }
+    println!("  C06 wide schemas: cases={} chunks-written={} cases-with-several-chunks={} violation-sigs={} {:.1}s", cs.len(), chunks, multi, viol.len(), t0.elapsed().as_secs_f64());
+    rep.add_u64("evaluations", cs.len() as u64);
+    rep.add_u64("executions", cs.len() as u64);
+    rep.set("wide_schemas", json!({"cases": cs.len(), "chunks_written": chunks, "cases_with_several_chunks": multi,
+        "rule": "1-3 successive writes of 4-row batches with value_f64 / value_i64 / value_u64 (extremes, NaN, -0.0, nulls), 4 label sets (incl. a dictionary-encoded label and an all-null label; a change of label set forces a schema-change flush) x {Int64, Timestamp(ns,UTC)} x flush thresholds {1, 5, none}; stored objects vs the accepted Arrow batches, every non-null value (floats by bit pattern)"}));
+    if multi == 0 {
+        rep.machinery("vacuity guard: no wide-schema case wrote more than one chunk");
+    }
+    for (sig, (msg, c, n)) in viol {
+        if sig.contains("machinery") {
+            rep.machinery(format!("{sig}: {msg}"));
+        } else {
+            rep.violation_n(&sig, &format!("{c:?}: {msg}"), json!({"kind": "wide-case", "case": c}), n);
+        }
+    }
 }
